@@ -5,9 +5,14 @@
 //! significands), each compared with a software model of x87 double-extended arithmetic (`soft.rs`).
 //! Plus "dependent sequences" (`seq.rs`): small optimised loops in which ONE variable is compared, updated in
 //! place and compared again, judged against the model running the same sequence.
+//! Every binary operation is also called with both operands being ONE object and with the operands in adjacent
+//! array elements (`Place` in `engine.rs`), and every operation is repeated a few hundred thousand times while
+//! other threads compute on other operands (`interfere.rs`): f80 operations are pure, so neither may matter.
 
 #[cfg(target_arch = "x86_64")]
 mod engine;
+#[cfg(target_arch = "x86_64")]
+mod interfere;
 #[cfg(target_arch = "x86_64")]
 mod seq;
 #[cfg(target_arch = "x86_64")]
